@@ -96,6 +96,19 @@ def run(ctx):
             )
         cur = classes.setdefault(k, [ok, text, 0])
         cur[2] += 1
+    # "... if and only if the library accepts": once the verifier has accepted, nothing may turn the
+    # command into a failure - an exception escaping the handler after a successful verification
+    # ends the process with a traceback and status 1
+    for p in sm.paths:
+        if p.kind != "raise":
+            continue
+        acc = [ev for ev in flat(p) if ev[0] == "call" and ev[2] in ("repo:authentication.verify_root", "repo:authentication.verify_delegation") and ev[5][0] == "ok"]
+        if not acc:
+            continue
+        x = p.value
+        k = ("raises-after-acceptance", x.exc, x.chain[-1].key())
+        cur = classes.setdefault(k, [False, "%s (%s) can escape the handler at %s after the library has accepted the files: the command prints success and exits with a traceback and status 1" % (x.exc, x.why[:70], x.chain[-1].text[:60]), 0])
+        cur[2] += 1
     for k, (ok, text, n) in sorted(classes.items()):
         ctx.count("R1.return_classes")
         ctx.ob("R1", "%s|%s" % (k[0], "|".join(k[1:])), site.loc(), "%s (%d paths)" % (text, n), ok)
